@@ -42,11 +42,8 @@ macro_rules! q2 { ($F:ty, $n:expr) => { straight_len!($F, QuadraticBezier2 { sta
 #[kani::proof]
 #[kani::unwind(13)]
 fn c15_t_length_f32_quadratic2_s9() { q2!(f32, 9) }
-/// K: fns=QuadraticBezier2::length_by_discretization,QuadraticBezier2::evaluate,Vec2::magnitude | inst=QuadraticBezier2<f64>, step_count 8 (9 segments) | bound=end coordinate k/8 for every 8-bit k >= 1; straight degenerate curve; one concrete step count; unwind 12 | cap=2400
-/// K: asserts=chord*(1-2^-10) <= length <= polygon*(1+2^-10) under f64 rounding
-#[kani::proof]
-#[kani::unwind(12)]
-fn c15_t_length_f64_quadratic2_s8() { q2!(f64, 8) }
+// (the f64 instantiation at step_count 8 — 9 segments, the smallest count at which an accumulated f64 parameter misses
+// the end — was tried and did not reach a verdict in 40 minutes; it is not registered)
 /// K: fns=QuadraticBezier2::length_by_discretization | inst=QuadraticBezier2<f32>, step_count 2 (3 segments) | bound=end coordinate k/8 for every 8-bit k >= 1; straight degenerate curve; unwind 5 | cap=2400
 /// K: asserts=chord*(1-2^-10) <= length <= polygon*(1+2^-10)
 #[kani::proof]
